@@ -9,7 +9,7 @@ from .engine import (Engine, State, Limits, Unsupported, Ref, VecVal, UNIT, Opaq
 from .trees import (INSTANCES, View, fresh_arena, inv_witness, inv_closed, conj, count_in, lookup, count_key, pred_ref,
                     KW, VW, EW, k2)
 
-STRUCT = ['shape', 'links', 'redred', 'colour', 'bst', 'black', 'sentinel']
+STRUCT = ['shape', 'links', 'redred', 'colour', 'bst', 'black', 'sentinel', 'linktyped', 'stale']
 
 
 class Ctx:
@@ -56,8 +56,8 @@ def dump_tree(m, inst, tree):
 
 
 # ------------------------------------------------------------------------------------------------ op table
-def _entry(P, mod, name, nargs):
-    c = [f for f in P.find(mod, name) if f.nargs == nargs]
+def _entry(P, mod, name, nargs, self_ty=None):
+    c = [f for f in P.find(mod, name) if f.nargs == nargs and (self_ty is None or self_ty in f.locals.get('_1', ''))]
     if len(c) != 1:
         raise Unsupported(f'entry {mod}::{name}/{nargs}: {c}')
     return c[0]
@@ -469,7 +469,8 @@ class KExport(Op):
     def setup(s, ctx):
         t = sym(ctx, 't', EW)
         ctx.by_value = True
-        return _entry(ctx.P, 'key::array', 'into_ordered_vec', 2), [ctx.tree, t], key_pre(ctx, t)
+        ctx.inst.summaries = {'is_part_of_the_tree': summary_in_tree}
+        return _entry(ctx.P, 'key::array', 'into_ordered_vec', 2, 'KeyExpTree'), [ctx.tree, t], key_pre(ctx, t)
 
     def post(s, ctx, st):
         y = ctx.sym
@@ -504,13 +505,37 @@ class KExport(Op):
         return post
 
 
+class KInTreeTest(Op):
+    """key::array::is_part_of_the_tree(slot) == "slot is in the tree" for every slot 1..len-1 (used as a summary by the export step)"""
+    name = 'is_part_of_the_tree'
+    mutates = False
+
+    def setup(s, ctx):
+        i = sym(ctx, 'i', 32)
+        return _entry(ctx.P, 'key::array', 'is_part_of_the_tree', 2), [TREE, i], [z3.UGE(i, 1), z3.ULT(i, ctx.view.n)]
+
+    def post(s, ctx, st):
+        post, v, it, _ = standard_post(ctx, st)
+        post.append(('C07:in-tree-test-exact', st.result == ctx.view.pick(ctx.it, ctx.sym['i'])))
+        return post
+
+
+def summary_in_tree(eng, st, fr, args):
+    """summary of is_part_of_the_tree, justified by the KInTreeTest step: closed-form membership in the current state"""
+    from .trees import closed_in_tree
+    tree = eng.read(st, args[0])
+    v = View(eng.inst, tree)
+    it, _, _ = closed_in_tree(v)
+    return v.pick([x if isinstance(x, z3.ExprRef) else z3.BoolVal(bool(z3.is_true(x))) for x in it], args[1])
+
+
 OPS = {
     'map': {o.name: o for o in [MSInsert(), MSDelete(), MSDeleteByIndex(), MSGet(), MSIsEmpty(), MSFirstLess(), MSFirstLessBy(),
                                 MSValueByIndex(), MSValueByIndexMut(), MSClear()]},
     'set': {o.name: o for o in [MSInsert(), MSDelete(), MSDeleteByIndex(), MSGet(), MSIsEmpty(), MSFirstLess(), MSFirstLessBy(),
                                 MSValueByIndex(), MSValueByIndexMut(), MSClear(), SetNeighbour(True), SetNeighbour(False)]},
     'key': {o.name: o for o in [KInsert(), KQuery('first_less'), KQuery('first_less_or_equal'), KQuery('first_less_or_equal_by'),
-                                KGet(), KClear(), KIsEmpty(), KExport()]},
+                                KGet(), KClear(), KIsEmpty(), KExport(), KInTreeTest()]},
 }
 
 
